@@ -12,10 +12,11 @@ bins=[bdir+('/harness.race.test' if os.environ.get('DBG_RACE') else '/harness.te
 env={'VERIF_RUN':d+'/in.json','GOMAXPROCS':'1','GOGC':'off','GODEBUG':'asyncpreemptoff=1,randautoseed=0','PATH':'/usr/bin:/bin','HOME':'/tmp','GORACE':'halt_on_error=0 exitcode=0'}
 if os.environ.get('VERIF_TRACE_G'): env['VERIF_TRACE_G']='1'
 if os.environ.get('VERIF_DUMP_ON_VIOLATION'): env['VERIF_DUMP_ON_VIOLATION']='1'
+if os.environ.get('VERIF_DUMP_AT'): env['VERIF_DUMP_AT']=os.environ['VERIF_DUMP_AT']
 p=subprocess.run([bins[-1],'-test.run','^TestRun$','-test.timeout','0'],env=env,capture_output=True,text=True,cwd=d,timeout=600)
 if not os.path.exists(d+'/out.json'):
     print(p.stderr[-6000:]); sys.exit(1)
-if os.environ.get('VERIF_DUMP_ON_VIOLATION'): open('/tmp/dump.txt','w').write(p.stderr)
+if os.environ.get('VERIF_DUMP_ON_VIOLATION') or os.environ.get('VERIF_DUMP_AT'): open('/tmp/dump.txt','w').write(p.stderr)
 r=json.load(open(d+'/out.json'))
 print('verdict',r['verdict'],'error',r.get('error'),'steps',r['steps'],'simtime',r['sim_time_s'],'hash',r['log_hash'])
 for v in r.get('violations',[]): print('VIOL',v)
